@@ -17,6 +17,13 @@ def actStr : Action → String
   | .Deny => "Deny"
   | .Pass => "Pass"
 
+private theorem ite_ok {α : Type} (b : Prop) [Decidable b] (x y : α) :
+    (if b then (Except.ok x : Except Err α) else Except.ok y) = Except.ok (if b then x else y) := by
+  split <;> rfl
+private theorem ok_bind {α β : Type} (a : α) (f : α → Except Err β) : (Except.ok a >>= f) = f a := rfl
+private theorem pure_ok {α : Type} (a : α) : (pure a : Except Err α) = Except.ok a := rfl
+private theorem bind_ok_id {α : Type} (x : Except Err α) : (x >>= fun s => Except.ok s) = x := by cases x <;> rfl
+
 /-- `UpdateWithRuleConns`: the model's `updateWithRule` is the Go function's effect on the receiver -/
 theorem updateWithRuleConns_eq (pc : PolicyConns) (rc : ConnSet) (a : Action) (banp : Bool) :
     (Gen.Procs.updateWithRuleConns pc rc (actStr a) banp).map (·.1) = pc.updateWithRule rc a banp := by
@@ -87,6 +94,22 @@ theorem baselineAdminPolicyAffectsDirection_eq (b : BANP) (isIngress : Bool) :
   cases isIngress
   · cases h : b.egress <;> simp [Gen.Procs.baselineAdminPolicyAffectsDirection, pure, Except.pure]
   · cases h : b.ingress <;> simp [Gen.Procs.baselineAdminPolicyAffectsDirection, pure, Except.pure]
+
+/-- `AdminNetworkPolicy.Selects`: no IP peer, the direction has rules, the subject selects the pod -/
+theorem anpSelects_eq (a : ANP) (p : KPeer) (isIngress : Bool) :
+    Gen.Procs.anpSelects a p isIngress = .ok (a.selects p isIngress) := by
+  unfold Gen.Procs.anpSelects ANP.selects
+  simp only [adminPolicyAffectsDirection_eq, ok_bind, pure_ok]
+  cases p.isPod <;> cases isIngress <;> simp [pure_ok, bind_ok_id, ok_bind]
+  all_goals (repeat (first | rfl | (split <;> simp_all [ok_bind, pure_ok, bind_ok_id])))
+
+/-- `BaselineAdminNetworkPolicy.Selects` -/
+theorem banpSelects_eq (b : BANP) (p : KPeer) (isIngress : Bool) :
+    Gen.Procs.banpSelects b p isIngress = .ok (b.selects p isIngress) := by
+  unfold Gen.Procs.banpSelects BANP.selects
+  simp only [baselineAdminPolicyAffectsDirection_eq, ok_bind, pure_ok]
+  cases p.isPod <;> cases isIngress <;> simp [pure_ok, bind_ok_id, ok_bind]
+  all_goals (repeat (first | rfl | (split <;> simp_all [ok_bind, pure_ok, bind_ok_id])))
 
 /-- the pair `(npConns, npCaptured)` of `getAllAllowedXgressConnsFromNetpols` as the model keeps it: `none` = no policy
 selects the pod in the direction, `some c` = the union of what the selecting policies allow -/
@@ -270,12 +293,137 @@ theorem includePairOfWorkloads_eq (focus : String) (s d : Engine.LPeer) :
   · cases h1 : (s.isIP && d.isIP) <;> cases h2 : (s.str == d.str) <;> simp [h1, h2, hf, pure, Except.pure]
 
 -- ------------------------------------------------------------------------------------------
+-- adminnetpol.go / baseline_admin_netpol.go: the rules of one admin policy folded into its PolicyConnections
+
+theorem actionString_eq (a : Action) : Gen.Procs.actionString a = actStr a := by cases a <;> rfl
+
+/-- `updatePolicyConns` -/
+theorem updatePolicyConns_eq (ports : Option (List APort)) (pc : PolicyConns) (dst : KPeer) (a : Action) (banp : Bool) :
+    Gen.Procs.updatePolicyConns ports pc dst (actStr a) banp = pc.updateWithRule (ARule.conns ports dst) a banp := by
+  have h := updateWithRuleConns_eq pc (ARule.conns ports dst) a banp
+  unfold Gen.Procs.updatePolicyConns
+  simp only [ok_bind, pure_ok]
+  cases hg : Gen.Procs.updateWithRuleConns pc (ARule.conns ports dst) (actStr a) banp with
+  | error e => rw [hg] at h; exact h
+  | ok r => rw [hg] at h; exact h
+
+/-- what `adminPolicyConns` does with one rule -/
+def ruleStep (other dst : KPeer) (banp : Bool) (pc : PolicyConns) (r : ARule) : Except Err PolicyConns :=
+  if r.peers.isEmpty then .error .anpRulePeers
+  else if !r.selectsPeer other then .ok pc
+  else pc.updateWithRule (ARule.conns r.ports dst) r.action banp
+
+/-- `updateConnsIfEgressRuleSelectsPeer` -/
+theorem updateConnsIfEgressRuleSelectsPeer_eq (r : ARule) (dst : KPeer) (pc : PolicyConns) (banp : Bool) :
+    Gen.Procs.updateConnsIfEgressRuleSelectsPeer r.peers r.ports dst pc (actStr r.action) banp = ruleStep dst dst banp pc r := by
+  unfold Gen.Procs.updateConnsIfEgressRuleSelectsPeer ruleStep ARule.selectsPeer
+  cases hp : r.peers with
+  | nil => rfl
+  | cons s ss =>
+    cases hs : (s :: ss).any (·.selectsPeer dst) <;>
+      simp [hs, ok_bind, pure_ok, updatePolicyConns_eq]
+
+/-- `updateConnsIfIngressRuleSelectsPeer` -/
+theorem updateConnsIfIngressRuleSelectsPeer_eq (r : ARule) (src dst : KPeer) (pc : PolicyConns) (banp : Bool) :
+    Gen.Procs.updateConnsIfIngressRuleSelectsPeer r.peers r.ports src dst pc (actStr r.action) banp = ruleStep src dst banp pc r := by
+  unfold Gen.Procs.updateConnsIfIngressRuleSelectsPeer ruleStep ARule.selectsPeer
+  cases hp : r.peers with
+  | nil => rfl
+  | cons s ss =>
+    cases hs : (s :: ss).any (·.selectsPeer src) <;>
+      simp [hs, ok_bind, pure_ok, updatePolicyConns_eq]
+
+theorem adminPolicyConns_fold (rules : List ARule) (other dst : KPeer) (banp : Bool) :
+    adminPolicyConns rules other dst banp = rules.foldlM (ruleStep other dst banp) PolicyConns.empty := rfl
+
+/-- `AdminNetworkPolicy.GetEgressPolicyConns` -/
+theorem anpGetEgressPolicyConns_eq (rules : List ARule) (dst : KPeer) :
+    Gen.Procs.anpGetEgressPolicyConns rules dst = adminPolicyConns rules dst dst false := by
+  rw [adminPolicyConns_fold]
+  unfold Gen.Procs.anpGetEgressPolicyConns
+  simp only [ok_bind, pure_ok, bind_ok_id, actionString_eq, updateConnsIfEgressRuleSelectsPeer_eq]
+
+/-- `AdminNetworkPolicy.GetIngressPolicyConns` -/
+theorem anpGetIngressPolicyConns_eq (rules : List ARule) (src dst : KPeer) :
+    Gen.Procs.anpGetIngressPolicyConns rules src dst = adminPolicyConns rules src dst false := by
+  rw [adminPolicyConns_fold]
+  unfold Gen.Procs.anpGetIngressPolicyConns
+  simp only [ok_bind, pure_ok, bind_ok_id, actionString_eq, updateConnsIfIngressRuleSelectsPeer_eq]
+
+/-- `BaselineAdminNetworkPolicy.GetEgressPolicyConns` -/
+theorem banpGetEgressPolicyConns_eq (rules : List ARule) (dst : KPeer) :
+    Gen.Procs.banpGetEgressPolicyConns rules dst = adminPolicyConns rules dst dst true := by
+  rw [adminPolicyConns_fold]
+  unfold Gen.Procs.banpGetEgressPolicyConns
+  simp only [ok_bind, pure_ok, bind_ok_id, actionString_eq, updateConnsIfEgressRuleSelectsPeer_eq]
+
+/-- `BaselineAdminNetworkPolicy.GetIngressPolicyConns` -/
+theorem banpGetIngressPolicyConns_eq (rules : List ARule) (src dst : KPeer) :
+    Gen.Procs.banpGetIngressPolicyConns rules src dst = adminPolicyConns rules src dst true := by
+  rw [adminPolicyConns_fold]
+  unfold Gen.Procs.banpGetIngressPolicyConns
+  simp only [ok_bind, pure_ok, bind_ok_id, actionString_eq, updateConnsIfIngressRuleSelectsPeer_eq]
+
+-- ------------------------------------------------------------------------------------------
+-- netpol.go: the union over the rules of one NetworkPolicy that select the other end (`continue` = go on with the state as it is)
+
+private theorem allowedConns_go_fold (np : NetPol) (other dst : KPeer) (rules : List NPRule) (res : ConnSet) :
+    NetPol.allowedConns.go np other dst res rules =
+      rules.foldlM (m := Except Err) (fun res rule => do
+        let mut res := res
+        let mut rulePeers := rule.peers
+        let mut rulePorts := rule.ports
+        let mut peerSelected ← (np.ruleSelectsPeer rulePeers other)
+        if (!peerSelected) then
+          return res
+        let mut ruleConns ← (NetPol.ruleConnections rulePorts (some dst))
+        res := res.union ruleConns
+        return res) res := by
+  induction rules generalizing res with
+  | nil => rfl
+  | cons r rest ih =>
+    unfold NetPol.allowedConns.go
+    simp only [List.foldlM]
+    cases hs : np.ruleSelectsPeer r.peers other with
+    | error e => rfl
+    | ok sel =>
+      cases sel
+      · simp only [ok_bind, pure_ok, Bool.not_false, if_true]
+        exact ih res
+      · cases hc : NetPol.ruleConnections r.ports (some dst) with
+        | error e => simp [ok_bind, pure_ok, hc]; rfl
+        | ok rc =>
+          simp only [ok_bind, pure_ok, Bool.not_true, Bool.false_eq_true, if_false, hc]
+          exact ih (res.union rc)
+
+/-- `GetEgressAllowedConns` -/
+theorem npGetEgressAllowedConns_eq (np : NetPol) (dst : KPeer) :
+    Gen.Procs.npGetEgressAllowedConns np dst = np.egressAllowedConns dst := by
+  unfold Gen.Procs.npGetEgressAllowedConns NetPol.egressAllowedConns NetPol.allowedConns
+  rw [allowedConns_go_fold]
+
+/-- `GetIngressAllowedConns` -/
+theorem npGetIngressAllowedConns_eq (np : NetPol) (src dst : KPeer) :
+    Gen.Procs.npGetIngressAllowedConns np src dst = np.ingressAllowedConns src dst := by
+  unfold Gen.Procs.npGetIngressAllowedConns NetPol.ingressAllowedConns NetPol.allowedConns
+  rw [allowedConns_go_fold]
+
+/-- `determineAllowedConnsPerDirection` without exposure analysis (the exposure sets of a policy are then empty): the rule walk -/
+theorem determineAllowedConnsPerDirection_eq (np : NetPol) (src dst : KPeer) (isIngress sp dp : Bool) :
+    Gen.Procs.determineAllowedConnsPerDirection np src dst isIngress (ConnSet.mk' false) (ConnSet.mk' false) (ConnSet.mk' false)
+      (ConnSet.mk' false) sp dp = (if isIngress then np.ingressAllowedConns src dst else np.egressAllowedConns dst) := by
+  unfold Gen.Procs.determineAllowedConnsPerDirection
+  cases isIngress <;>
+    simp [ConnSet.mk', npGetIngressAllowedConns_eq, npGetEgressAllowedConns_eq, bind_ok_id, pure_ok]
+
+-- ------------------------------------------------------------------------------------------
 -- loops: a Go `for … range` whose body only updates variables of the enclosing scope is the monadic left fold of its body
 
 /-- `getAllAllowedXgressConnectionsFromANPs`: the fold over the admin policies in priority order -/
 theorem getAllAllowedXgressConnectionsFromANPs_eq (e : Engine) (src dst : KPeer) (isIngress : Bool) :
     e.anpConns src dst isIngress = Gen.Procs.getAllAllowedXgressConnectionsFromANPs e.anps src dst isIngress := by
   unfold Engine.anpConns Gen.Procs.getAllAllowedXgressConnectionsFromANPs
+  simp only [anpGetEgressPolicyConns_eq, anpGetIngressPolicyConns_eq, anpSelects_eq]
   congr 1
   · congr 1
     funext pc a
@@ -298,6 +446,7 @@ theorem getAllAllowedXgressConnsFromNetpols_eq (e : Engine) (src dst : KPeer) (i
       Gen.Procs.getAllAllowedXgressConnsFromNetpols (.ok (e.policiesSelecting dst .ingress)) (.ok (e.policiesSelecting src .egress))
         src dst isIngress := by
   unfold Engine.netpolConns Gen.Procs.getAllAllowedXgressConnsFromNetpols npLift
+  simp only [determineAllowedConnsPerDirection_eq]
   cases isIngress
   · cases hp : e.policiesSelecting src .egress with
     | nil => simp [hp, bind, Except.bind, pure, Except.pure, Except.map]
@@ -323,18 +472,21 @@ theorem getAllAllowedXgressConnsFromNetpols_eq (e : Engine) (src dst : KPeer) (i
 def genDefaultConns (e : Engine) (src dst : KPeer) (isIngress : Bool) : Except Err PolicyConns :=
   match e.banp with
   | none => Gen.Procs.getXgressDefaultConns false isIngress (.ok false) (.ok false) (.ok PolicyConns.empty) (.ok PolicyConns.empty)
-  | some b => Gen.Procs.getXgressDefaultConns true isIngress (.ok (b.selects dst true)) (.ok (b.selects src false))
-      (adminPolicyConns b.ingress src dst true) (adminPolicyConns b.egress dst dst true)
+  | some b => Gen.Procs.getXgressDefaultConns true isIngress (Gen.Procs.banpSelects b dst true) (Gen.Procs.banpSelects b src false)
+      (Gen.Procs.banpGetIngressPolicyConns b.ingress src dst) (Gen.Procs.banpGetEgressPolicyConns b.egress dst)
 
 theorem genDefaultConns_eq (e : Engine) (src dst : KPeer) (isIngress : Bool) :
     e.defaultConns src dst isIngress = genDefaultConns e src dst isIngress := by
   unfold genDefaultConns
   cases h : e.banp with
   | none => exact getXgressDefaultConns_none e src dst isIngress h _ _ _ _
-  | some b => exact getXgressDefaultConns_some e src dst isIngress b h
+  | some b =>
+    simp only [banpGetIngressPolicyConns_eq, banpGetEgressPolicyConns_eq, banpSelects_eq]
+    exact getXgressDefaultConns_some e src dst isIngress b h
 
-/-- one direction, every function of check.go on the way regenerated from the source: only the rule-level leaves
-(`Selects`, `Get{In,E}gressPolicyConns`, `getPoliciesSelectingPod`, the per-policy allowed connections) are the model's -/
+/-- one direction, every function of check.go on the way regenerated from the source: the admin-policy side down to
+`UpdateWithRuleConns` is regenerated too (`Get{In,E}gressPolicyConns` of ANP and BANP); the leaves left to the model are `Selects`, the rule's
+connection set (`ruleConnections`), `getPoliciesSelectingPod` and the per-NetworkPolicy allowed connections -/
 def genXgress (e : Engine) (src dst : KPeer) (isIngress : Bool) : Except Err ConnSet :=
   Gen.Procs.allAllowedXgressConnections
     (Gen.Procs.getAllAllowedXgressConnectionsFromANPs e.anps src dst isIngress)
@@ -355,6 +507,37 @@ theorem peerConns_regenerated (e : Engine) (src dst : KPeer) :
   rw [allAllowedConnectionsBetweenPeers_eq, xgressConns_regenerated, xgressConns_regenerated]
 
 -- ------------------------------------------------------------------------------------------
+-- the eval twin of the rule walk of one NetworkPolicy (`for i := range np.Spec.Ingress` reading `np.Spec.Ingress[i]`)
+
+theorem npIngressAllowedConn_loop (np : NetPol) (src dst : KPeer) (proto port : String) (l : List NPRule) :
+    npAllowedConn.go np src proto port dst l = Gen.Procs.npIngressAllowedConn_loop1 np src proto port dst l := by
+  induction l with
+  | nil => rfl
+  | cons r rest ih =>
+    unfold npAllowedConn.go Gen.Procs.npIngressAllowedConn_loop1
+    rw [ih]
+
+/-- `IngressAllowedConn` -/
+theorem npIngressAllowedConn_eq (np : NetPol) (src dst : KPeer) (proto port : String) :
+    npAllowedConn np np.ingress src proto port dst = Gen.Procs.npIngressAllowedConn np src proto port dst := by
+  unfold npAllowedConn Gen.Procs.npIngressAllowedConn
+  rw [npIngressAllowedConn_loop]
+
+theorem npEgressAllowedConn_loop (np : NetPol) (dst : KPeer) (proto port : String) (l : List NPRule) :
+    npAllowedConn.go np dst proto port dst l = Gen.Procs.npEgressAllowedConn_loop1 np dst proto port l := by
+  induction l with
+  | nil => rfl
+  | cons r rest ih =>
+    unfold npAllowedConn.go Gen.Procs.npEgressAllowedConn_loop1
+    rw [ih]
+
+/-- `EgressAllowedConn` -/
+theorem npEgressAllowedConn_eq (np : NetPol) (dst : KPeer) (proto port : String) :
+    npAllowedConn np np.egress dst proto port dst = Gen.Procs.npEgressAllowedConn np dst proto port := by
+  unfold npAllowedConn Gen.Procs.npEgressAllowedConn
+  rw [npEgressAllowedConn_loop]
+
+-- ------------------------------------------------------------------------------------------
 -- first-match loops: a Go loop whose body returns a value or goes on with the next element is a structural recursion
 
 theorem byANPs_loop (src dst : KPeer) (isIngress : Bool) (proto port : String) (anps l : List ANP) :
@@ -364,6 +547,7 @@ theorem byANPs_loop (src dst : KPeer) (isIngress : Bool) (proto port : String) (
   | nil => rfl
   | cons a rest ih =>
     unfold byANPs.go Gen.Procs.allowedXgressConnectionByAdminNetpols_loop1
+    simp only [anpSelects_eq]
     rw [ih]
     cases isIngress
     · cases hs : a.selects src false
@@ -392,6 +576,7 @@ theorem byNetpols_loop (a b : Except Err (List NetPol)) (src dst : KPeer) (isIng
   | nil => rfl
   | cons p rest ih =>
     unfold byNetpols.go Gen.Procs.allowedXgressConnectionByNetpols_loop1
+    simp only [← npIngressAllowedConn_eq, ← npEgressAllowedConn_eq]
     rw [ih]
 
 /-- `allowedXgressConnectionByNetpols`: not captured when no policy selects the pod; otherwise the first policy (in name
@@ -421,7 +606,7 @@ theorem allowedXgressConnectionByNetpols_eq (e : Engine) (src dst : KPeer) (isIn
 def genByBANP (e : Engine) (src dst : KPeer) (isIngress : Bool) (proto port : String) : Except Err Bool :=
   match e.banp with
   | none => Gen.Procs.allowedXgressByBaselineAdminNetpolOrByDefault false isIngress (.ok false) (.ok false) (.ok true) (.ok true)
-  | some b => Gen.Procs.allowedXgressByBaselineAdminNetpolOrByDefault true isIngress (.ok (b.selects dst true)) (.ok (b.selects src false))
+  | some b => Gen.Procs.allowedXgressByBaselineAdminNetpolOrByDefault true isIngress (Gen.Procs.banpSelects b dst true) (Gen.Procs.banpSelects b src false)
       (banpVerdict (adminCheck b.ingress src dst proto port true)) (banpVerdict (adminCheck b.egress dst dst proto port true))
 
 theorem genByBANP_eq (e : Engine) (src dst : KPeer) (isIngress : Bool) (proto port : String) :
@@ -429,7 +614,9 @@ theorem genByBANP_eq (e : Engine) (src dst : KPeer) (isIngress : Bool) (proto po
   unfold genByBANP
   cases h : e.banp with
   | none => exact byBANP_none e src dst isIngress proto port h _ _ _ _
-  | some b => exact byBANP_some e src dst isIngress proto port b h
+  | some b =>
+    simp only [banpSelects_eq]
+    exact byBANP_some e src dst isIngress proto port b h
 
 /-- the rule-walking verdict of one direction (`eval` / `CheckIfAllowed`), every function of check_eval.go on the way regenerated
 from the source: admin policies in priority order with the first capturing rule, then the NetworkPolicies in name order, then
@@ -572,12 +759,6 @@ theorem addAllConns_eq (c : ConnSet) : Gen.Procs.addAllConns c = .ok c.addAllCon
   unfold Gen.Procs.addAllConns ConnSet.addAllConns
   simp [Proto.all, List.foldlM, bind, Except.bind, pure, Except.pure, addConnection_eq]
 
-private theorem ite_ok {α : Type} (b : Prop) [Decidable b] (x y : α) :
-    (if b then (Except.ok x : Except Err α) else Except.ok y) = Except.ok (if b then x else y) := by
-  split <;> rfl
-private theorem ok_bind {α β : Type} (a : α) (f : α → Except Err β) : (Except.ok a >>= f) = f a := rfl
-private theorem pure_ok {α : Type} (a : α) : (pure a : Except Err α) = Except.ok a := rfl
-private theorem bind_ok_id {α : Type} (x : Except Err α) : (x >>= fun s => Except.ok s) = x := by cases x <;> rfl
 
 /-- `ConnectionSet.Intersection` -/
 theorem intersection_eq (c o : ConnSet) : Gen.Procs.intersection c o = .ok (c.inter o) := by
